@@ -490,3 +490,22 @@ theorem powMod_zpow (hA : ArithOK) {n : Nat} (hn : 1 < n) {b : Int} (hb : IsCopr
       push_cast; rfl
 
 end Zk.Cl
+
+/-! ### appended: `pw` with a negative exponent on a unit -/
+namespace Zk.Cl
+open Zk.IA
+
+/-- negative exponent on a unit base: `pw` returns the power of THE inverse `bi` (`b·bi ≡ 1`). -/
+theorem pw_neg_unit (hA : ArithOK) {b e N : Int} (hN : 1 < N) (hb : Int.gcd b N = 1) (he : e < 0)
+    (t : List Draw) :
+    ∃ bi, invMod b N = some bi ∧ 0 ≤ bi ∧ bi < N ∧ b * bi ≡ 1 [ZMOD N] ∧
+      pw b e N t = .ok (bi ^ (-e).toNat % N, t) := by
+  cases hi : invMod b N with
+  | none => exact absurd hb (hA.invMod_none b N hN hi)
+  | some bi =>
+    obtain ⟨h0, h1, hmul⟩ := hA.invMod_some b N bi hN hi
+    refine ⟨bi, rfl, h0, h1, ?_, pw_neg hA (by omega) he hi t⟩
+    show b * bi % N = 1 % N
+    rw [hmul, Int.emod_eq_of_lt (by omega) hN]
+
+end Zk.Cl
